@@ -74,6 +74,12 @@ def _case(draw, tier):
         "centred": centred,
         "data": draw(datagen.data_spec(n, dtypes=["float64", "int64", "float32"], max_lead=2)),
         "via_uxda_first": draw(st.booleans()),
+        # how the judged grid comes about: from arrays (optionally with Cartesian node coordinates on a sphere of some
+        # radius), or as a face subset of that grid, taken on a fresh grid / after node_face_connectivity was derived /
+        # after the dual of the whole grid was built (the subset is then the judged grid)
+        "route": draw(st.sampled_from(["topology", "topology", "topology", "radius", "radius", "subset", "subset-after-nfc", "subset-after-dual"])),
+        "radius": draw(st.sampled_from([2.5, 40.0, 6371229.0])),
+        "drop": draw(st.lists(st.integers(0, 10_000), min_size=1, max_size=4)),
     }
 
 
@@ -175,7 +181,33 @@ def run_case(case, ctx):
     if not in_domain(mesh):
         ctx.label("out-of-domain:face-not-convex-or-too-large")
         return fails
-    g = build.grid_from_mesh(mesh)
+    route = case.get("route", "topology")
+    if route == "radius":
+        xyz_r = meshgen.mesh_xyz(mesh) * case["radius"]
+        g = build.grid_from_mesh(mesh, node_x=np.ascontiguousarray(xyz_r[:, 0]), node_y=np.ascontiguousarray(xyz_r[:, 1]), node_z=np.ascontiguousarray(xyz_r[:, 2]))
+        site += ":cartesian-radius"
+    else:
+        g = build.grid_from_mesh(mesh)
+    if route.startswith("subset") and n_face >= 5:
+        if route == "subset-after-nfc":
+            g.node_face_connectivity
+        elif route == "subset-after-dual":
+            g.get_dual()
+        drop = sorted({k % n_face for k in case["drop"]})
+        keep = [k for k in range(n_face) if k not in drop]
+        sg = g.isel(n_face=keep)
+        # the subset as the grid itself reports it (that a subset keeps exactly the chosen faces is C02's subject)
+        sconn = np.asarray(sg.face_node_connectivity.values)
+        if sconn.ndim == 1:
+            sconn = sconn[None, :]
+        smesh = {
+            "nodes": [[float(a), float(b)] for a, b in zip(np.asarray(sg.node_lon.values, float), np.asarray(sg.node_lat.values, float))],
+            "faces": [[int(j) for j in row if j != FILL] for row in sconn],
+        }
+        ctx.label("route:" + route)
+        sub_job = (sg, smesh) if len(smesh["faces"]) == len(keep) and in_domain(smesh) else None
+    else:
+        sub_job = None
     uxda = None
     spec = case["data"]
     if closed:
@@ -188,10 +220,16 @@ def run_case(case, ctx):
     if uxda is not None and dual_from_da is None:
         dual_from_da = uxda.get_dual()
 
-    val = refmodel.node_valence(faces, n_node)
-    expected_nodes = [i for i in range(n_node) if val[i] >= 3]
+    def judge_grid(d, tag, mesh=mesh, site=site):
+        faces, nodes = mesh["faces"], mesh["nodes"]
+        n_node, n_face = len(nodes), len(faces)
+        closed = refmodel.is_closed(faces)
+        val = refmodel.node_valence(faces, n_node)
+        expected_nodes = [i for i in range(n_node) if val[i] >= 3]
 
-    def judge_grid(d, tag):
+        def bad(oracle, kind, detail, s=None):
+            fails.append(Failure(oracle, s or site, kind, detail))
+
         conn = np.asarray(d.face_node_connectivity.values)
         if conn.ndim == 1:
             conn = conn[None, :]
@@ -267,6 +305,10 @@ def run_case(case, ctx):
                 if abs(tot - 2 * np.pi) > 1e-6:
                     bad("ccw", "winding", f"{tag}: dual face {r} (node {i}) winds {tot!r} rad about the node, expected +2*pi", site + ":" + vs)
 
+    if sub_job is not None:
+        judge_grid(sub_job[0].get_dual(), "subset.get_dual", sub_job[1], "partial:" + jit + ":" + route)
+        if fails:
+            return fails
     judge_grid(dual, "Grid.get_dual")
     if fails:
         return fails
